@@ -33,6 +33,10 @@ Clauses(ev) ==
   CASE ev.ev = "flatten" ->
          [EveryFieldOfARowBelongsTogether |-> \A i \in 1..Len(ev.rows) : Intact(ev.rows[i]),
           FlatteningNeitherLosesNorDuplicates |-> Len(ev.rows) = N /\ {TagOf(ev.rows[i]) : i \in 1..Len(ev.rows)} = AllTags]
+    [] ev.ev = "estimate" ->   \* the rollout after advantage estimation: every field other than returns / advantages, sample by sample
+         [EstimationKeepsEveryOtherFieldOfEverySample |->
+              /\ Len(ev.rows) = N /\ Len(flat) = N
+              /\ \A i \in 1..N : Intact(ev.rows[i]) /\ TagOf(ev.rows[i]) = TagOf(flat[i]) /\ Len(ev.rows[i]) = ev.width]
     [] ev.ev = "indices" ->
          [RowsHaveBatchSize      |-> \A r \in 1..Len(ev.idx) : Len(ev.idx[r]) = cfg.B,
           ExactlyFloorNOverBTimesBUsed |-> Len(ev.idx) * cfg.B = (N \div cfg.B) * cfg.B,
